@@ -14,6 +14,7 @@ var Tokens = []string{
 	"==", "!=", "<", "<=", ">", ">=", "=~", "/a/", "/(/", "&&", "||", "!", " ", "true", "null", "'a'", `"a"`,
 	".f()", ".zz()", `\`, "\u00e9", "\U0001F600", "\xff", "\ufffd", "\t",
 	`'\ud834'`, // a quoted name that ends in a lone surrogate escape
+	"//",       // the empty regular expression
 }
 
 // Contexts wrap a token sequence so that the bounded soup reaches every sub-grammar.
